@@ -134,4 +134,101 @@ def labels_of_array(a):
     return frozenset(tuple(r) for r in a.tolist()) if a.ndim == 2 else frozenset(a.tolist())
 
 
-REFS = dict(ref_set_fold=ref_set_fold, labels_of_array=labels_of_array, ref_map_slice_args=ref_map_slice_args, ref_windows=ref_windows, observed_windows=observed_windows, windows_agree=windows_agree, ref_tb_equals=ref_tb_equals, ref_slices_from_targets=ref_slices_from_targets)
+def ref_index_equals(a, b, compare_name, compare_dtype, compare_class, skipna):
+    """content equivalence of two Index objects, from the property statement (C10)"""
+    import numpy as np
+    if a is b:
+        return True
+    if compare_class and a.__class__ is not b.__class__:
+        return False
+    if len(a) != len(b):
+        return False
+    if compare_name and a.name != b.name:
+        return False
+    if compare_dtype and a.values.dtype != b.values.dtype:
+        return False
+
+    def missing(x):
+        if isinstance(x, (np.datetime64, np.timedelta64)):
+            return bool(np.isnat(x))
+        return isinstance(x, (float, np.floating)) and x != x
+    for x, y in zip(list(a.values), list(b.values)):
+        mx, my = missing(x), missing(y)
+        if mx and my:
+            if not skipna:
+                return False
+        elif mx or my:
+            return False
+        else:
+            try:
+                if not bool(x == y):
+                    return False
+            except Exception:
+                return False
+    return True
+
+
+def ref_series_equals(a, b, compare_name, compare_dtype, compare_class, skipna):
+    """content equivalence of two Series, from the property statement (C10): values as for an index, and the indices equal under the same options"""
+    if a is b:
+        return True
+    if compare_class and a.__class__ is not b.__class__:
+        return False
+    if compare_name and a.name != b.name:
+        return False
+
+    class _V:      # the value vectors seen through the index predicate (name / class already compared above)
+        def __init__(self, s):
+            self.values, self.name, self.s = s.values, None, s
+
+        def __len__(self):
+            return len(self.values)
+    if not ref_index_equals(_V(a), _V(b), False, compare_dtype, False, skipna):
+        return False
+    return ref_index_equals(a.index, b.index, compare_name, compare_dtype, compare_class, skipna)
+
+
+def ref_has_missing(array):
+    """does the array (or array proxy) hold a NaN / NaT / None cell?"""
+    import numpy as np
+    a = getattr(array, 'a', array)
+    k = a.dtype.kind
+    if k in 'fc':
+        return bool(np.isnan(a).any())
+    if k in 'mM':
+        return bool(np.isnat(a).any())
+    if k == 'O':
+        return any(x is None or (isinstance(x, float) and x != x) for x in a.ravel())
+    return False
+
+
+def ref_series_assign(assign, value, fill_value, result):
+    """Series.assign[key](Series value, fill_value): under every targeted label the result holds the value's cell for that label, or the fill value when the
+    value lacks the label -- exactly, not a cast of it; every other cell is the container's"""
+    cont = assign.container
+    key = assign.key
+    labels = list(cont.index.values)
+    import numpy as np
+    targeted = list(np.array(labels, dtype=object)[key]) if not isinstance(key, (int, np.integer)) else [labels[key]]
+
+    def same(a, b):
+        if isinstance(a, float) and a != a:
+            return isinstance(b, float) and b != b
+        try:
+            return type(a) is not bool and type(b) is not bool and a == b or (a is b) or (type(a) is type(b) and a == b)
+        except Exception:
+            return False
+
+    def py(x):
+        return x.item() if hasattr(x, 'item') else x
+    vmap = dict(zip(list(value.index.values), list(value.values)))
+    got = dict(zip(list(result.index.values), list(result.values)))
+    orig = dict(zip(labels, list(cont.values)))
+    for lab in labels:
+        want = (vmap[lab] if lab in vmap else fill_value) if lab in targeted else orig[lab]
+        if not same(py(got[lab]), py(want)):
+            return False
+    return True
+
+
+REFS = dict(ref_series_assign=ref_series_assign, ref_has_missing=ref_has_missing, ref_index_equals=ref_index_equals, ref_series_equals=ref_series_equals, ref_set_fold=ref_set_fold, labels_of_array=labels_of_array, ref_map_slice_args=ref_map_slice_args, ref_windows=ref_windows, observed_windows=observed_windows, windows_agree=windows_agree, ref_tb_equals=ref_tb_equals, ref_slices_from_targets=ref_slices_from_targets)
